@@ -193,7 +193,13 @@ def prepare_ws():
     # lock file: start from /repo's lock whenever that one changed
     rl = os.path.join(REPO, "Cargo.lock")
     mark = os.path.join(WS, ".repo_lock_sha")
-    want = sha(rl)
+    h = hashlib.sha256(sha(rl).encode())
+    for root, dirs, files in os.walk(HARNESS):
+        dirs.sort()
+        for f in sorted(files):
+            if f == "Cargo.toml":
+                h.update(open(os.path.join(root, f), "rb").read())
+    want = h.hexdigest()
     have = open(mark).read().strip() if os.path.exists(mark) else ""
     if want != have or not os.path.exists(os.path.join(WS, "Cargo.lock")):
         shutil.copyfile(rl, os.path.join(WS, "Cargo.lock"))
